@@ -227,12 +227,23 @@ def afm(spec, r, knobs):
             s = "(" + s + ")"
             return s
         return s if top else "(" + s + ")"
-    if spec.get("ctcs") or "empty-blocks" in knobs:
+    expected = copy.deepcopy(spec)
+    if spec.get("ctcs") or "empty-blocks" in knobs or "blocks" in knobs:
         lines.append("%Constraints")
-        for c in spec.get("ctcs", []):
+        out_ctcs = []
+        for k, c in enumerate(spec.get("ctcs", [])):
             lines.append(ex(c["ast"]) + ";")
+            out_ctcs.append({"name": "?", "ast": c["ast"]})
+            if "blocks" in knobs and k == 0:
+                # a feature-relative block: the names inside are relative to the feature (prefix 'Owner.')
+                names = S.feature_names(spec)
+                owner, a, b = r.choice(names), r.choice(names), r.choice(names)
+                lines.append(owner + " {" + sp() + a + " REQUIRES " + b + ";" + sp() + b + " EXCLUDES " + a + ";" + sp() + "}")
+                out_ctcs.append({"name": "?", "ast": ["REQUIRES", owner + "." + a, owner + "." + b]})
+                out_ctcs.append({"name": "?", "ast": ["EXCLUDES", owner + "." + b, owner + "." + a]})
+        expected["ctcs"] = out_ctcs
     text = "\n".join(lines) + "\n"
-    return text, copy.deepcopy(spec)
+    return text, expected
 
 
 # ----------------------------------------------------------------------------- Glencoe JSON
@@ -241,6 +252,10 @@ def glencoe(spec, r, knobs):
     idmap = {}
     for i, n in enumerate(S.feature_names(spec)):
         idmap[n] = (f"id_{i}_{r.randint(100, 999)}" if "ids" in knobs else n)
+    if "ids-are-other-names" in knobs:
+        # ids are arbitrary keys: here every feature's id is the NAME of another feature (a rotation)
+        ns = S.feature_names(spec)
+        idmap = {n: ns[(i + 1) % len(ns)] for i, n in enumerate(ns)}
     features = {}
 
     def tree(f, optional):
@@ -304,3 +319,56 @@ def glencoe(spec, r, knobs):
         r.shuffle(items)
         doc = dict(items)
     return json.dumps(doc, indent=r.choice([None, 1, 4]), ensure_ascii=r.random() < 0.5), copy.deepcopy(spec)
+
+
+# ----------------------------------------------------------------------------- flamapy JSON (third-party producer)
+def fm_json(spec, r, knobs):
+    """The library's own JSON format as another producer may write it: n-ary AND/OR/XOR operand lists of any
+    length, key order, compact output, no 'expr' convenience field.  knobs: nary, key-order, compact, no-expr"""
+    def tree(f):
+        d = {"name": f["name"], "abstract": bool(f.get("abstract", False))}
+        rels = []
+        for rel in f.get("rels", []):
+            k = len(rel["children"])
+            c = (rel["min"], rel["max"])
+            typ = ("MANDATORY" if c == (1, 1) else "OPTIONAL" if c == (0, 1) else "CARDINALITY") if k == 1 else (
+                "XOR" if c == (1, 1) else "OR" if c == (1, k) else "MUTEX" if c == (0, 1) else "CARDINALITY")
+            if k == 1 and typ == "CARDINALITY":
+                typ = "CARDINALITY"
+            rels.append({"type": typ, "card_min": rel["min"], "card_max": rel["max"], "children": [tree(ch) for ch in rel["children"]]})
+        d["relations"] = rels
+        if f.get("attrs"):
+            d["attributes"] = [dict({"name": a["name"]}, **({"value": a["value"]} if a.get("value") is not None else {}))
+                               for a in f["attrs"]]
+        if "key-order" in knobs:
+            items = list(d.items())
+            r.shuffle(items)
+            d = dict(items)
+        return d
+
+    def term(a):
+        if not isinstance(a, list):
+            return {"type": "FEATURE", "operands": [a]}
+        op = a[0]
+        ops = list(a[1:])
+        if "nary" in knobs and op in ("AND", "OR", "XOR"):
+            flat, stack = [], list(reversed(ops))
+            while stack:
+                x = stack.pop()
+                if isinstance(x, list) and x[0] == op:
+                    stack.extend(reversed(x[1:]))
+                else:
+                    flat.append(x)
+            ops = flat
+        return {"type": op, "operands": [term(x) for x in ops]}
+    ctcs = []
+    for c in spec.get("ctcs", []):
+        e = {"name": c["name"], "ast": term(c["ast"])}
+        if "no-expr" not in knobs:
+            e["expr"] = "n/a"
+        ctcs.append(e)
+    doc = {"features": tree(spec["root"]), "constraints": ctcs}
+    if "key-order" in knobs and r.random() < 0.5:
+        doc = {"constraints": ctcs, "features": doc["features"]}
+    text = json.dumps(doc, indent=None if "compact" in knobs else 2, ensure_ascii=r.random() < 0.5)
+    return text, copy.deepcopy(spec)
